@@ -432,3 +432,56 @@ example : monitor {} { res := .exiterr, death := .st, eb := 1, term := .at 0 } =
 example : monitor {} { res := .exiterr, death := .st, eb := 0 } = some .termEarly := by decide
 
 end CmdTransport
+namespace CmdTransport
+theorem classEnvs_ok (c : Class) (e : Env) (h : e ∈ classEnvs c) : e.td = 4 ∧ e.stdinFails = false := by
+  simp only [classEnvs, List.mem_flatMap, List.mem_map] at h
+  obtain ⟨_, _, _, _, _, _, _, _, _, _, rfl⟩ := h
+  exact ⟨rfl, rfl⟩
+
+/-- Every environment the driver's search ranges over is a model run the monitor accepts: an
+observation explained by the grid differs from an accepted one only in what the search leaves free. -/
+theorem grid_envs_accepted (c : Class) (e : Env) (h : e ∈ classEnvs c) : monitor c (modelObs c e) = none := by
+  obtain ⟨h1, h2⟩ := classEnvs_ok c e h
+  exact monitor_accepts_model c e (by omega) h2
+
+theorem nominal_accepted (c : Class) : monitor c (modelObs c (nominalEnv c)) = none :=
+  monitor_accepts_model c _ (by simp [nominalEnv]) rfl
+end CmdTransport
+namespace CmdTransport
+/-- **What the comparison with the model guarantees by itself**: an observation the driver's search
+explains by a model run already satisfies the clauses about the result and the escalation's lower bounds
+(Wait's result only after Wait returned; truthful; SIGKILL not before two, giving up not before three
+TerminateDurations) — the monitor's other clauses are about what the search leaves free. -/
+theorem explained_obs_sound (c : Class) (o : Obs) (e : Env) (h : explain c o = some e) :
+    P_waited o ∧ P_result o ∧ P_killGrace o ∧ P_giveUp o := by
+  obtain ⟨hmem, hm⟩ := explain_sound c o e h
+  obtain ⟨htd, hs⟩ := classEnvs_ok c e hmem
+  have hP := model_satisfies_P c e (by omega) hs
+  obtain ⟨_, _, _, _, hw, hr, _, _, _, _, _, _, _⟩ := hP
+  simp only [matchesEnv, Bool.and_eq_true, beq_iff_eq, decide_eq_true_eq] at hm
+  obtain ⟨⟨⟨hres, hdeath⟩, hexp⟩, _⟩ := hm
+  obtain ⟨_, _, _, _, hk, hfin⟩ := close_final e
+  have hne : (run e).res ≠ some .stdinErr := by
+    intro h'; have := stdinErr_only_if_fails e h'; rw [hs] at this; cases this
+  refine ⟨?_, ?_, ?_, ?_⟩
+  · unfold P_waited at *; rw [← hres, ← hdeath]; exact hw
+  · unfold P_result at *; rw [← hres, ← hdeath]; exact hr
+  · unfold P_killGrace
+    intro hd
+    rw [← hdeath] at hd
+    simp only [modelObs] at hd
+    split at hd
+    · have hks := death_kill e _ _ (deathObs_sk _ hd)
+      rcases hk with h' | h'
+      · simp [h'] at hks
+      · omega
+    · cases hd
+  · unfold P_giveUp
+    intro hu
+    rw [← hres] at hu
+    rcases hfin with h' | h' | h' | h'
+    · by_cases h0 : deathObs (death e (run e).termAt (run e).killAt) = .e0 <;> simp [modelObs, h'.1, resObs, h0] at hu
+    · exact absurd h'.1 hne
+    · simp [modelObs, h'.1, resObs] at hu
+    · omega
+end CmdTransport
